@@ -273,6 +273,9 @@ func propC10(r *Run) {
 				return nil
 			}
 		}
+		if r.Choose("fs-yields", 8) == 0 {
+			w.fsYields()
+		}
 		// dispatcher slowness: how reluctant the scheduler is to let the service loops run
 		slow := []int{1, 1, 3, 10, 40}[r.Choose("dispatcher-slowness", 5)]
 		o := loopOpts{maxSteps: 1500, wClient: slow * 4, wLoop: 4, wClock: 1}
